@@ -92,10 +92,27 @@ c.result(Bytes())
 # Signer: the envelope is assembled from ghost parts so that clauses can name them:
 #   D   = the bstr-wrapped digest (first element of the authentication wrapper)
 #   OLD = a previously attached COSE_Sign1 block (signed variant), M = the manifest bstr, P17 / PAY = other members
+def _long_tag_head(it, env):
+    """Variant `signed-long-tag-head`: the block that is already attached carries its COSE_Sign1 tag 18 in the two-byte head form d8 12 (well-formed CBOR that
+    cbor2 decodes to the same tagged value; other tools emit it) - it is a signature all the same.  OLD is replaced by those bytes, with the same origin."""
+    from pyvc import cbor, symdesc
+    from pyvc.values import VBytes
+    old = env.lookup("OLD")
+    o = symdesc.origin(it, old)
+    if o is None or not hasattr(o, "tag"):
+        return
+    long_form = it.stubs.concat_bytes(VBytes(b"\xd8\x12"), cbor.enc(it, o.value))
+    cbor.register(it, long_form, o)
+    env.set("OLD", long_form)
+
+
 def _envelope(signed):
     def build(it, env):
         from pyvc import cbor
         from pyvc.values import VTag, VDict, DEntry, VInt, VList
+        if "long-tag-head" in (it.variant_label or "") and not getattr(it, "_long_tag_done", False):
+            it._long_tag_done = True
+            _long_tag_head(it, env)
         D = env.lookup("D")
         items = [D] + ([env.lookup("OLD")] if signed else [])
         wrapper = cbor.enc(it, VList(items))
@@ -125,7 +142,7 @@ for g, t in ENV_GHOSTS:
     c.ghost(g, t)
 c.param("self", Obj(FS, "Signer", _skip_signing=Const(False)))
 c.param("action", ACTIONS)
-c.variants = [("unsigned", {}), ("signed", {})]
+c.variants = [("unsigned", {}), ("signed", {}), ("signed-long-tag-head", {})]
 
 
 def _setup_signer(it, env):
@@ -165,6 +182,7 @@ c.param("kms_script", Str())
 c.param("already_signed_action", ACTIONS)
 c.variants = [(f"{st}/{a}", {"input_envelope": _envelope(st == "signed"), "algorithm": EnumT(FB, "SuitSignAlgorithms", members=[a])})
               for st in ("unsigned", "signed") for a in ("ES_256", "ES_384", "ES_521", "EdDSA", "VS_HashEdDSA")]
+c.variants.append(("signed-long-tag-head/EdDSA", {"input_envelope": _envelope(True), "algorithm": EnumT(FB, "SuitSignAlgorithms", members=["EdDSA"])}))
 
 
 def _sign_env_setup(it, env):
